@@ -18,6 +18,10 @@ modes
   action_only  internal mode (ancillas need not be restored): only "the target bits of every output basis state are
                those of the input, flipped iff the input controls match" is demanded
 """
+import contextlib
+import ctypes
+import glob
+import os
 import warnings
 from math import comb
 
@@ -29,6 +33,51 @@ warnings.filterwarnings("ignore")
 
 TOL = 1e-6
 OP_MAX_QUBITS = 8          # full operators up to this width, state evolution above
+
+
+# --------------------------------------------------------------------------------------------
+# BLAS threading: 2x2 gates on 2^n-vectors are memory bound; OpenBLAS' default thread pool makes them ~10x slower
+# (and burns every core).  Best effort, restored afterwards.
+# --------------------------------------------------------------------------------------------
+def _openblas_handles():
+    out = []
+    base = os.path.dirname(np.__file__)
+    for pat in ("../numpy.libs/*openblas*.so*", "../scipy.libs/*openblas*.so*", "../scipy_openblas64/lib/*openblas*.so*"):
+        for path in sorted(glob.glob(os.path.join(base, pat))):
+            try:
+                lib = ctypes.CDLL(path)
+            except OSError:
+                continue
+            for prefix in ("scipy_openblas_", "openblas_"):
+                for suffix in ("64_", ""):
+                    setter = getattr(lib, f"{prefix}set_num_threads{suffix}", None)
+                    getter = getattr(lib, f"{prefix}get_num_threads{suffix}", None)
+                    if setter is not None and getter is not None:
+                        out.append((setter, getter))
+                        break
+                else:
+                    continue
+                break
+    return out
+
+
+@contextlib.contextmanager
+def blas_threads(n):
+    saved = []
+    try:
+        for setter, getter in _openblas_handles():
+            saved.append((setter, int(getter())))
+            setter(int(n))
+    except Exception:
+        pass
+    try:
+        yield
+    finally:
+        for setter, old in saved:
+            try:
+                setter(old)
+            except Exception:
+                pass
 
 
 # --------------------------------------------------------------------------------------------
@@ -419,7 +468,7 @@ def run_gate_case(ctx, case):
             case["states"] = ["unimod", "haar", extra] if extra != "haar" else ["unimod", "haar"]
         else:
             extra = STATE_FAMILIES[1 + int(ctx.rng.integers(len(STATE_FAMILIES) - 1))]
-            case["states"] = ["haar", extra]
+            case["states"] = ["haar", "ctrl_match", extra] if extra != "ctrl_match" else ["haar", "ctrl_match"]
     short = "vchain" if case["class"] == "McxVchainDirty" else "linear"
     fam = f"{short}:{case['mode']}:{case['eval']}"
     if case["class"] == "McxVchainDirty":
@@ -445,41 +494,48 @@ def linear_case(k, cs, mode):
 
 
 def evaluate(ctx, deep):
+    with blas_threads(1):
+        _evaluate(ctx, deep)
+
+
+def _evaluate(ctx, deep):
     rng = ctx.rng
-    # ---------------- V-chain
-    all_upto = 6 if deep else 5
+    # ---------------- V-chain: width 2k-2+nt
+    all_upto = 6 if deep else 5              # every pattern, every mode, every target count
     kmax_v = 10 if deep else 7
     qmax = 20 if deep else 13
     for k in range(1, kmax_v + 1):
-        big = k > all_upto
         for nt in (1, 2, 3):
-            if 2 * k - 2 + nt > qmax and k > 2:
+            nq = k + max(k - 2, 0) + nt
+            if nq > qmax:
                 continue
             modes = ["exact", "action_only"] + (["relphase"] if nt == 1 else [])
             for mode in modes:
-                if big:
-                    nrand = (3 if mode == "exact" else 1) if (2 * k - 2 + nt) >= 17 else (8 if mode == "exact" else 4)
+                upto = all_upto + 1 if (mode == "exact" and nt == 1) else all_upto
+                if nq >= 17:
+                    nrand = 4 if mode == "exact" else 2
+                elif deep:
+                    nrand = 12 if mode == "exact" else 6
                 else:
-                    nrand = 0
-                if big and mode == "action_only" and (2 * k - 2 + nt) >= 17:
-                    nrand = 1
-                pats = patterns_for(rng, k, all_upto, nrand)
-                if big and (2 * k - 2 + nt) >= 17:
+                    nrand = 8 if mode == "exact" else 4
+                pats = patterns_for(rng, k, upto, nrand)
+                if nq >= 17:
                     pats = pats[1:]            # None == all ones is the first structured pattern anyway
                 for cs in pats:
                     run_gate_case(ctx, vchain_case(k, nt, cs, mode))
-    # ---------------- linear MCX
+    # ---------------- linear MCX: width k+2
     all_upto_l = 7 if deep else 6
     kmax_l = 18 if deep else 11
     for k in range(1, kmax_l + 1):
         for mode in ("exact", "action_only"):
-            if k <= all_upto_l:
-                nrand = 0
-            elif k + 2 >= 17:
-                nrand = 2 if mode == "exact" else 1
+            upto = all_upto_l + 1 if mode == "exact" else all_upto_l
+            if k + 2 >= 17:
+                nrand = 4 if mode == "exact" else 2
+            elif deep:
+                nrand = 12 if mode == "exact" else 4
             else:
                 nrand = 8 if mode == "exact" else 3
-            pats = patterns_for(rng, k, all_upto_l, nrand)
+            pats = patterns_for(rng, k, upto, nrand)
             if k + 2 >= 17:
                 pats = pats[1:]
             for cs in pats:
@@ -534,4 +590,5 @@ def replay(ctx, case):
         return eval_majority_degrees(ctx, case)
     for extra in ("err", "failing_state"):
         case.pop(extra, None)
-    return eval_case(ctx, case)
+    with blas_threads(1):
+        return eval_case(ctx, case)
